@@ -2,6 +2,7 @@
 save, delete, walk (which pages are replaced by which), read (the comment constructors), readall
 (the strict page reader) -/
 import MutagenModel.Model.Container.OggInject
+import MutagenModel.Model.Container.OggInjectM
 import Driver.Util
 import Driver.FlacC
 import Driver.Ogg
@@ -74,7 +75,23 @@ def oggApiOp (a : Args) : Option String :=
     some (showOutcome f (renumber (a.nat "serial") (f.length + 1) f (a.nat "pos") (a.nat "start")))
   | _ => none
 
+/-- the file-object programs (C19, C06): `savem` / `deletem` run `saveEntry` / `deleteEntry` on the bytes
+`data` in the fault environment `fail=<i>:<err> short=<i>:<k> cap=<n> leak=<n>` (Driver/FileOps.lean) with
+buffer size `B`; the answer has the outcome, the bytes left, the position and the log of calls -/
+def oggFaultOp (a : Args) : Option String :=
+  match a.str "op", oggCodec (a.str "fmt") with
+  | "savem", some c =>
+    let f := a.bytes "data"
+    some (showResult (saveEntry (a.nat "B" 1048576) c f (a.bytes "vc") (a.bytes "paddata") (padOf a) (envOf a) { data := f }))
+  | "deletem", some c =>
+    let f := a.bytes "data"
+    some (showResult (deleteEntry (a.nat "B" 1048576) c f (a.bytes "vendor") (a.bytes "paddata") (envOf a) { data := f }))
+  | _, _ => none
+
 def ogginjectOp (a : Args) : String :=
+  match oggFaultOp a with
+  | some r => r
+  | none =>
   match oggApiOp a with
   | some r => r
   | none =>
